@@ -562,7 +562,8 @@ def run(res, tier, seed):
     res.bound = ("2 model templates (<= 9 spaces, nesting <= 3: multiple inheritance incl. a diamond and derived-of-"
                  "derived, parametrised spaces with child spaces, parametrised child, item of item, derived "
                  "parametrised space, formula choosing another base, dependents reading by name / cells ref / space "
-                 "ref / attribute path / through an instance); histories = every sequence of <= %d preparatory steps "
+                 "ref / attribute path / through an instance); histories = every sequence of <= %d preparatory steps (quick: "
+                 "length-2 prefixes in one order only) "
                  "out of 5-6 (evaluate everything, override a derived cells, input, new base cells, ref change, base "
                  "edit that discards instances; each followed by full evaluation and a harvest of handles to every "
                  "reachable object and node) ending in every deletion trigger applicable: del of every defined cells / "
@@ -579,6 +580,7 @@ def run(res, tier, seed):
                 if tier == "quick" and n == 2 and preops.index(pre[0]) > preops.index(pre[1]):
                     continue            # quick: unordered pairs only
                 jobs.extend(chunked(t.__name__, pre))
+    jobs.sort(key=lambda j: len(j[1]))          # breadth first: short histories of every template before long ones
     complete = run_jobs(res, jobs, worker)
     if complete and tier != "quick":
         rj = []
